@@ -470,3 +470,15 @@ T("C13", UT, "            f = NamedTemporaryFile(mode=\"r+\", suffix=\".hdf5\", 
 T("C09", DI, _LOGP_OLD, _LOGP_OLD.replace("            res = pt.switch(\n                (value >= a) & (value <= b),\n                -pt.log(value) - pt.log(_fac),\n                -np.inf,\n            )\n", "            res = pt.switch(\n                (value < a) | (value > b),\n                -np.inf,\n                -pt.log(value) - pt.log(_fac),\n            )\n"), "support switch written with the outside test first")
 M("C09", "C09-SUPP", DI, _LOGP_OLD, _LOGP_OLD.replace("            res = pt.switch(\n                (value >= a) & (value <= b),\n                -pt.log(value) - pt.log(_fac),\n                -np.inf,\n            )\n", "            ln_v = pt.log(value)\n            res = pt.switch(\n                (ln_v < pt.log(a)) | (ln_v > pt.log(b)),\n                -np.inf,\n                -ln_v - pt.log(_fac),\n            )\n"), "outside test on log(value): NaN for negative values selects the density (seeded C09-C)")
 M("C09", "C09-WIRE", PR, "            sigma_K0=sigma_K0,\n            P0=P0,\n            sigma_v=sigma_v,\n", "            sigma_K0=sigma_K0,\n            sigma_v=sigma_v,\n", "JokerPrior.default does not forward P0 (seeded C09-D, first half)")
+
+# ---------------------------------------------------------------- transparent helpers (sa/inline.py): decorated helpers are never transparent
+_HDR = "def read_batch_slice(prior_samples_file, columns, slice, units=None):"
+_OLD1 = "    with h5py.File(prior_samples_file, mode=\"r\") as f:\n        table_units = table_header_to_units(f[meta_path(path)])\n\n    batch = None\n"
+_NEW1 = "    table_units = _read_table_units(prior_samples_file, path)\n\n    batch = None\n"
+_OLD2 = "    with h5py.File(prior_samples_file, mode=\"r\") as f:\n        table_units = table_header_to_units(f[meta_path(path)])\n\n    batch = np.zeros((len(idx), len(columns)))\n"
+_NEW2 = "    table_units = _read_table_units(prior_samples_file, path)\n\n    batch = np.zeros((len(idx), len(columns)))\n"
+_HELPER = "def _read_table_units(prior_samples_file, path):\n    with h5py.File(prior_samples_file, mode=\"r\") as f:\n        return table_header_to_units(f[meta_path(path)])\n\n\n"
+_MEMO = "import functools\n\n\n@functools.lru_cache(maxsize=8)\n"
+for _p, _r in (("C01", "C01-FEED"), ("C05", "C05-"), ("C07", "C07-READ"), ("C12", "C12-COL")):
+    M(_p, _r, [(UT, _HDR, _MEMO + _HELPER + _HDR), (UT, _OLD1, _NEW1), (UT, _OLD2, _NEW2)], name="header units read through a memoised helper (stale after the file is rewritten)")
+    T(_p, [(UT, _HDR, _HELPER + _HDR), (UT, _OLD1, _NEW1), (UT, _OLD2, _NEW2)], name="header units read through a plain extracted helper")
